@@ -752,15 +752,18 @@ def simp_cc_conds(_, expr):
               expr,
               "FLAG_SIGN_SUB"
           )):
-        expr = ExprOp(TOK_INF_SIGNED, *expr.args[0].args)
+        # Sign of the difference (not a signed comparison: no overflow flag)
+        arg0, arg1 = expr.args[0].args
+        expr = ExprOp(TOK_INF_SIGNED, arg0 - arg1, ExprInt(0, arg0.size))
 
     elif (expr.is_op("CC_POS") and
           test_cc_eq_args(
               expr,
               "FLAG_SIGN_SUB"
           )):
+        arg0, arg1 = expr.args[0].args
         expr = ExprCond(
-            ExprOp(TOK_INF_SIGNED, *expr.args[0].args),
+            ExprOp(TOK_INF_SIGNED, arg0 - arg1, ExprInt(0, arg0.size)),
             ExprInt(0, expr.size),
             ExprInt(1, expr.size)
         )
